@@ -13,7 +13,7 @@ import stages
 
 def k2_build(ctx):
     defs, twins = corpus.k2_definitions(ctx.tier, ctx.seed)
-    exp = ctx.stage('expander', stages.expander_build)
+    exp = ctx.stage('expander', lambda: stages.expander_build(ctx.dir))
     if not exp['ok']:
         return {'ok': False, 'why': 'expander does not build against /repo', 'log': exp['log']}
     skels = stages.expand(exp['bins'][False], [smgen.dsl_defn(d) for d in defs])
